@@ -928,7 +928,7 @@ def extract(build, ir_text=None):
         seen_names.add(name)
         marks = (len(M.mode_tracked), len(M.mode_untracked), len(M.mask_tracked), len(M.assert_choices))
         M.cur_ov = M.slice_ov[fidx]
-        M.out_upd = {}
+        M.out_upd, M.out_after = {}, {}
         first = {}
         chains = []
         mode_ev = _mode_track(M, f)
@@ -960,6 +960,8 @@ def extract(build, ir_text=None):
                 if id(i) in mode_ev:
                     evs.append((mode_ev[id(i)], i.text))
                 evs += _events(M, name, i, fn_ids, fdefs, b, var_asserts)
+                if id(i) in M.out_after:
+                    evs.append((M.out_after[id(i)], i.text))
             if b.term == "ret":
                 evs.append((("ret",), "ret"))
             if not evs:
@@ -1185,6 +1187,7 @@ def _keep(field):
     return ALLW & ~field
 
 
+OUT_PTR_LIBC = {"getaddrinfo": 3}      # reviewed: external functions that return a pointer through argument k and do not keep the address
 OUT_NONE = -1                          # clone of an out-parameter function for the activations that store nothing
 
 
@@ -1312,6 +1315,38 @@ def _guard_track(M, f, exclude):
                 break
         if ok and stores:
             cands[v] = (stores, vals, outs)
+    # pointer locals that are only assigned `null` and whose address is passed to a reviewed external function that writes a
+    # result pointer through it (OUT_PTR_LIBC): value 0 = null, 1 = not null; after such a call the variable is either
+    ptr_after = {}
+    for b in f.blocks:
+        for i in b.insts:
+            m = re.match(r'(%[\w.]+) = alloca (\S+\*),', i.text)
+            if not m or m.group(1) in exclude:
+                continue
+            v, ty = m.group(1), re.escape(m.group(2))
+            pat = re.compile(r'(?<![\w.])' + re.escape(v) + r'(?![\w.])')
+            ok, stores, outs = True, [], []
+            for b2 in f.blocks:
+                for i2 in b2.insts:
+                    t = i2.text
+                    if not pat.search(t):
+                        continue
+                    if i2 is i or re.match(r'%[\w.]+ = load ' + ty + ', ' + ty + r'\* ' + re.escape(v) + r',', t):
+                        continue
+                    if re.match(r'store ' + ty + ' null, ' + ty + r'\* ' + re.escape(v) + r',', t):
+                        stores.append((i2, 0))
+                        continue
+                    if i2.kind == "call" and i2.callee in OUT_PTR_LIBC and i2.callee not in M.mod.functions and len(pat.findall(t)) == 1 \
+                            and OUT_PTR_LIBC[i2.callee] < len(i2.args) and i2.args[OUT_PTR_LIBC[i2.callee]][1] == v:
+                        outs.append(i2)
+                        continue
+                    ok = False
+                if b2.term_text and pat.search(b2.term_text):
+                    ok = False
+            if ok and stores and outs:
+                cands[v] = (stores, {0, 1}, [])
+                allocas.append(v)
+                ptr_after[v] = (outs, m.group(2))
     # conditional branches decided by a candidate
     branches = {}
     for b in f.blocks:
@@ -1327,19 +1362,30 @@ def _guard_track(M, f, exclude):
                 r = x.text.split(" = ")[0]
                 defs[r] = x.text
                 pos[r] = k
-        mc = re.match(r'%[\w.]+ = icmp (eq|ne) i32 (%[\w.]+), (-?\d+)$', defs.get(mb.group(1), ""))
-        if not mc:
-            continue
-        ml = re.match(r'%[\w.]+ = load i32, i32\* (%[\w.]+),', defs.get(mc.group(2), ""))
-        if not ml or ml.group(1) not in cands:
-            continue
-        v, kc = ml.group(1), int(mc.group(3))
-        if not 0 <= kc < (1 << GUARD_BITS):
+        cmp_ = defs.get(mb.group(1), "")
+        mc = re.match(r'%[\w.]+ = icmp (eq|ne) i32 (%[\w.]+), (-?\d+)$', cmp_)
+        if mc:
+            is_eq, ldreg, kc = mc.group(1) == "eq", mc.group(2), int(mc.group(3))
+            ml = re.match(r'%[\w.]+ = load i32, i32\* (%[\w.]+),', defs.get(ldreg, ""))
+            v = ml.group(1) if ml else None
+            if v in ptr_after:
+                continue
+        else:
+            mc = re.match(r'%[\w.]+ = icmp (eq|ne) (\S+\*) (%[\w.]+), null$', cmp_)
+            if not mc:
+                continue
+            is_eq, ldreg, kc = mc.group(1) == "eq", mc.group(3), 0          # x == NULL  <=>  field == 0
+            ml = re.match(r'%[\w.]+ = load (\S+\*), \S+ (%[\w.]+),', defs.get(ldreg, ""))
+            v = ml.group(2) if ml and ml.group(1) == mc.group(2) else None
+            if v not in ptr_after or ptr_after[v][1] != mc.group(2):
+                continue
+        if v not in cands or not 0 <= kc < (1 << GUARD_BITS):
             continue
         # the variable must not be assigned between the load and the branch
-        if any(re.match(r'store i32 \S+, i32\* ' + re.escape(v) + r',', x.text) for x in b.insts[pos[mc.group(2)]:]):
+        if any(x.kind in ("store", "call", "icall", "asm") and re.search(r'(?<![\w.])' + re.escape(v) + r'(?![\w.])', x.text)
+               for x in b.insts[pos[ldreg]:]):
             continue
-        branches.setdefault(v, []).append((b.label, mc.group(1) == "eq", kc))
+        branches.setdefault(v, []).append((b.label, is_eq, kc))
     chosen = [v for v in allocas if v in branches][:MAX_GUARDS]
     evs, brs, info, out_upd = {}, {}, [], {}
     for k, v in enumerate(chosen):
@@ -1349,6 +1395,8 @@ def _guard_track(M, f, exclude):
             evs[id(i)] = ("modeUpd", _keep(field), c << off)
         for i in cands[v][2]:
             out_upd[id(i)] = (_keep(field), off, v)
+        for i in ptr_after.get(v, ([], None))[0]:
+            M.out_after[id(i)] = ("choice", [[("modeUpd", _keep(field), 0)], [("modeUpd", _keep(field), 1 << off)]])
         for lab, is_eq, kc in branches[v]:
             if lab in brs:
                 continue
